@@ -84,7 +84,7 @@ def gen_case(rng, tag, writer):
 
 def cases(ctx):
     rng = ctx.rng('c03')
-    for i in range(ctx.budget(3500, 250000)):
+    for i in range(ctx.budget(10000, 400000)):
         yield gen_case(rng, f'X{ctx.shard}.{i}', W.WRITERS[i % len(W.WRITERS)])
 
 
